@@ -137,6 +137,10 @@ def directed():
               "Poll T 0 0 0 R 100 1"] + ["Poll T 0 0 0"] * 12)
     P.append(["Body 1 SigDel 1", "SigAdd 1 10 0 0", "PollAdd 2 100 2 1 0 1", "Run", "Poll T 0 0 0 S 10 10 10", "Poll T 0 0 0 R 100 1",
               "Poll T 0 0 0"] + ["Poll T 0 0 0"] * 12)
+    # two registrations of one signal; one is deleted (from outside / from its own callback): the other still gets every delivery
+    P.append(["SigAdd 1 10 1 0", "SigAdd 2 10 0 0", "SigDel 1", "Run", "Poll T 0 0 0 S 10", "Poll T 0 0 0", "Poll T 0 0 0 S 10 10"] + ["Poll T 0 0 0"] * 6)
+    P.append(["Body 1 SigDel 1", "SigAdd 1 12 2 1", "SigAdd 2 12 1 0", "Run", "Poll T 0 0 0 S 12", "Poll T 0 0 0", "Poll T 0 0 0 S 12", "Poll T 0 0 0"] +
+             ["Poll T 0 0 0"] * 6)
     # descriptor callback returns negative, closes, number reused
     P.append(["Body 1 FdClose 100 ; PollAdd new 100 1 1 0 0", "PollAdd 1 100 1 1 -1 1", "Run", "Poll T 0 0 0 R 100 1", "Poll T 0 0 0 R 100 1",
               "Poll T 0 0 0 R 100 1"] + ["Poll T 0 0 0"] * 12)
